@@ -68,7 +68,7 @@ def first_reaction_unit(S, E, lim_mode="default", conserve=False, asserts=("walk
         c.reachable("firstReaction returned")
         if isinstance(x_new, int) and ok is False:
             # "nothing can fire"
-            c.prove(conj([close(rj, 0, c) for rj in r]), "nothing-can-fire return only when every rate is zero")
+            c.prove(conj([rj == 0 for rj in r]), "nothing-can-fire return only when every rate is zero")
             return
         c.prove(disj([rj > 0 for rj in r]), "a step is attempted only when some rate is positive")
         positive = [j for j in range(E) if bool(r[j] > 0)]
@@ -142,7 +142,7 @@ def tau_leap_unit(S, E, pre_tau, lim_mode="default", conserve=False, asserts=("w
         t_new, tau, x_new, jumps, ok = out
         c.reachable("tauLeap returned")
         if isinstance(x_new, int) and ok is False:
-            c.prove(conj([close(rj, 0, c) for rj in r]), "nothing-can-fire return only when every rate is zero")
+            c.prove(conj([rj == 0 for rj in r]), "nothing-can-fire return only when every rate is zero")
             return
         c.prove(len(jumps) == E, "one count per event")
         c.prove(len(stream.log) == E, "one Poisson draw per event")
@@ -278,7 +278,7 @@ def jump_unit(spec, exact, K, pre_tau=False, tag="C04", asserts=("walk",), lim_m
             last_x, last_t = list(X[-1]), Tm[-1]
             rates = m.eventRateVector(last_x, last_t)
             stopped_at_horizon = last_t >= T
-            none_fire = conj([close(rr, 0, c) for rr in rates])
+            none_fire = conj([rr <= 0 for rr in rates])
             if bool(stopped_at_horizon):
                 c.note("exit: horizon")
             elif bool(none_fire):
